@@ -116,7 +116,8 @@ FastRational gcd(FastRational const & a, FastRational const & b)
 {
     assert(a.isInteger() and b.isInteger());
     if (a.wordPartValid() && b.wordPartValid()) {
-        return FastRational(gcd(a.num, b.num));
+        // On absolute values: the result is non-negative as on the GMP path, and INT_MIN % -1 is never evaluated
+        return FastRational(gcd(absVal(a.num), absVal(b.num)));
     }
     else {
         a.ensure_mpq_valid();
@@ -130,7 +131,7 @@ FastRational lcm(FastRational const & a, FastRational const & b)
 {
     assert(a.isInteger() and b.isInteger());
     if (a.wordPartValid() && b.wordPartValid()) {
-        return lcm(a.num, b.num);
+        return lcm(absVal(a.num), absVal(b.num));
     }
     else {
         a.ensure_mpq_valid();
